@@ -575,6 +575,26 @@ def answer(key: str):
         return canon_obj(db.get_db(dev, rev or "latest").features)
     if kind == "sch":
         return canon_obj(db.get_schema_file(arg))
+    if kind == "schmut":
+        # a caller that customises the schema it was given (SPSDK's own helpers do: templates, family specific enums):
+        # what it got is its own copy, so nothing of this may reach the database or its cache
+        sch = db.get_schema_file(arg)
+        out = canon_obj(sch)
+
+        def scribble(o, depth=0):
+            if isinstance(o, dict):
+                for k_ in list(o)[:6]:
+                    if depth < 3:
+                        scribble(o[k_], depth + 1)
+                o["verif_customised"] = "by the caller"
+            elif isinstance(o, list):
+                for it in o[:4]:
+                    if depth < 3:
+                        scribble(it, depth + 1)
+                o.append("verif_customised")
+
+        scribble(sch)
+        return out
     if kind == "cfg":
         path = dm.db.get_data_file_path(arg)
         return canon_obj(dm.db.load_db_cfg_file(path))
@@ -623,6 +643,8 @@ def battery_keys() -> list[str]:
                 if fn.endswith((".yaml", ".json")):
                     keys.append(f"cfg:common/{sub}/{fn}")
     keys += ["path:common/database_defaults.yaml", "path:common/nonexistent.yaml"]
+    # (last: in the reference process nothing is asked after them)
+    keys += [k.replace("sch:", "schmut:", 1) for k in keys if k.startswith("sch:")]
     return keys
 
 
